@@ -91,7 +91,7 @@ def compare(ctx, what, got_tree, expected_string, expected_tree, is_ahb, wcase) 
 async def check_case(ctx, case):
     """case: {"s", "table", "ahb": bool, optional "schedule_seed"}"""
     s, table, is_ahb = case["s"], case["table"], case["ahb"]
-    rng = ctx.rng
+    rng = ctx.case_rng(case)
     ctx.set_case("resolve", case)
     ctx.count("cases")
     s1, unknown = substitute_packages(s, table)
@@ -142,12 +142,12 @@ async def check_case(ctx, case):
             return
     # the same resolution through the library's own package resolvers (dictionary based / ContentEvaluationResult based, the latter
     # taking its table from context local evaluatable data that change from call to call while the resolver instance stays the same)
-    if ctx.rng.random() < 0.5:
+    if rng.random() < 0.5:
         from vf import evalhelp as H
 
         known_table = {k: v for k, v in table.items() if v is not None}
         cer = E.make_cer({}, {}, {}, packages=known_table)
-        mode = ctx.rng.choice(["hardcoded", "cer"])
+        mode = rng.choice(["hardcoded", "cer"])
         shipped = await H.with_shipped_evaluators(mode, cer, lambda: parse_expression_including_unresolved_subexpressions(s, resolve_packages=True, replace_time_conditions=True))
         ctx.evaluation()
         ctx.count("resolutions_with_shipped_resolvers")
